@@ -78,7 +78,7 @@ def prescreen(programs):
     return bad
 
 
-def build_and_run(programs, nshards=16, rounds=4, extra_prelude="", timeout=3000):
+def build_and_run(programs, nshards=16, rounds=7, extra_prelude="", timeout=3000):
     """programs: dict case_id -> Rust source of `pub mod c<ID> { use super::*; … pub fn run() {…} }`.
     Returns (observations, compile_failures: {case_id: [rustc messages]}, stats)."""
     _setup()
@@ -94,7 +94,8 @@ def build_and_run(programs, nshards=16, rounds=4, extra_prelude="", timeout=3000
     for rnd in range(rounds):
         stats["rounds"] = rnd + 1
         live = [i for i in ids if i not in exclude]
-        nsh = max(1, min(nshards, (len(live) + 19) // 20))
+        # at most ~1000 case modules per binary: rustc needs about 1.7 GB for that many, and 16 of them run at once
+        nsh = max(1, min(nshards, (len(live) + 19) // 20), (len(live) + 999) // 1000)
         shards = [live[s::nsh] for s in range(nsh)]
         linemap = {}
         for f in (RT / "src" / "bin").iterdir():
